@@ -161,6 +161,7 @@ class Repo(object):
         self.adopted = {}
         self.inlined = {}
         self.segments = {}
+        self.simplified = {}
         self.ref_trees = {}
         self._alpha_normalise()
 
@@ -231,6 +232,15 @@ class Repo(object):
                 got = equiv.adopt_reference(mod.tree, ref[name], hier_cur, hier_ref)
                 if got:
                     self.adopted[name] = got
+                    set_parents(mod.tree)
+        for name, mod in self.modules.items():
+            if name in ref and not os.environ.get("VERIF_NO_EQUIV"):
+                if ast.dump(mod.tree) == ast.dump(ref[name]):
+                    continue
+                got = equiv.simplify_views(mod.tree, ref[name])
+                if got:
+                    self.simplified[name] = got
+                    ast.fix_missing_locations(mod.tree)
                     set_parents(mod.tree)
         for name, mod in self.modules.items():
             if name in ref:
@@ -633,6 +643,7 @@ def finish(chk, t0, seed, error=None, extra_cov=None, out=sys.stdout, write=True
         "locals_renamed_to_reference": {m: {q: d for q, d in v.items()} for m, v in chk.repo.renamed.items()
                                         if m in chk.repo.consulted} if chk.repo else {},
         "helpers_inlined": {m: v for m, v in chk.repo.inlined.items() if m in chk.repo.consulted} if chk.repo else {},
+        "views_simplified": {m: v for m, v in getattr(chk.repo, "simplified", {}).items() if m in chk.repo.consulted} if chk.repo else {},
         "statements_proved_equivalent_to_reference": {m: v for m, v in chk.repo.segments.items()
                                                       if m in chk.repo.consulted} if chk.repo else {},
         "units_proved_equivalent_to_reference": {m: v for m, v in chk.repo.adopted.items()
